@@ -290,8 +290,10 @@ def effective_limits(variant, objs):
     return vmin, vmax
 
 
-def clim_check(got, vmin, vmax, objs, what):
-    """property clause on colour limits, read on the implementation's own data."""
+def clim_check(got, vmin, vmax, objs, what, widened_ok=True):
+    """property clause on colour limits, read on the implementation's own data.  A degenerate range
+    (min == max) may be widened by matplotlib when a colour bar is attached (`widened_ok`); otherwise the
+    limits are exactly the range."""
     if got is None:
         return None
     glo, ghi = got
@@ -299,9 +301,10 @@ def clim_check(got, vmin, vmax, objs, what):
         want = (F(vmin), F(vmax))
     else:
         want = (F(min(objs)) if vmin is None else F(vmin), F(max(objs)) if vmax is None else F(vmax))
-    if want[0] < want[1]:
+    if want[0] < want[1] or not widened_ok:
         if (glo, ghi) != want:
-            return f"{what}: colour limits {float(glo)},{float(ghi)} != {float(want[0])},{float(want[1])}"
+            return (f"{what}: colour limits {float(glo)},{float(ghi)} != {float(want[0])},{float(want[1])} "
+                    f"(the explicit limits / the range of the stored objectives)")
     elif not (glo <= want[0] and want[1] <= ghi):
         return f"{what}: colour limits {float(glo)},{float(ghi)} do not contain {float(want[0])},{float(want[1])}"
     return None
@@ -315,10 +318,10 @@ def lims_ok(got, want):
     return got[0] <= lo and hi <= got[1]
 
 
-def clim_corr(got, model, tol=None):
+def clim_corr(got, model, tol=None, widened_ok=True):
     if got is None:
         return True
-    if model[0] < model[1]:
+    if model[0] < model[1] or not widened_ok:
         if tol is not None:
             return abs(got[0] - model[0]) <= tol and abs(got[1] - model[1]) <= tol
         return tuple(got) == tuple(model)
@@ -432,7 +435,7 @@ def cmp_fields(obs, model, fields, where):
     for f in fields:
         if obs[f] != model[f]:
             return Failure("corr", f"{where}: {f} impl={_short(obs[f])} model={_short(model[f])}")
-    if not clim_corr(obs["clim"], model["clim"]):
+    if not clim_corr(obs["clim"], model["clim"], widened_ok=obs.get("_cbar", True)):
         return Failure("corr", f"{where}: clim impl={_short(obs['clim'])} model={_short(model['clim'])}")
     return None
 
@@ -493,6 +496,7 @@ def call_both(fn, archive, variant, kwargs, read, where, vmin, vmax):
             obs, err = read(fg, n_before)
             if err:
                 return None, Failure("oracle", f"{tag}: {err}")
+            obs["_cbar"] = bool(variant.get("cbar"))
         finally:
             fg.close()
         if archive_sum(archive) != base_sum:
@@ -644,7 +648,7 @@ def run_grid(case):
             if obs["xlim"] != (lo[xdim], hi[xdim]) or (not one_d and obs["ylim"] != (lo[ydim], hi[ydim])):
                 return Failure("oracle", f"{where}: axis limits {_short(obs['xlim'])} {_short(obs['ylim'])} are not "
                                f"the archive bounds of the plotted dimensions")
-            msg = clim_check(obs["clim"], vmin, vmax, objs, where)
+            msg = clim_check(obs["clim"], vmin, vmax, objs, where, widened_ok=obs.get("_cbar", True))
             if msg:
                 return Failure("oracle", msg)
             return None
@@ -738,7 +742,7 @@ def run_cvt1(case):
                                    f"{_short(colors[0][p])}, archive stores {_short(stored.get(inside[0]))}")
             if obs["xlim"] != (F(a.lower_bounds[0]), F(a.upper_bounds[0])):
                 return Failure("oracle", f"{where}: x limits are not the archive bounds")
-            msg = clim_check(obs["clim"], vmin, vmax, objs, where)
+            msg = clim_check(obs["clim"], vmin, vmax, objs, where, widened_ok=obs.get("_cbar", True))
             if msg:
                 return Failure("oracle", msg)
             return None
@@ -968,7 +972,7 @@ def run_sliding(case):
                 return Failure("oracle", f"{where}: boundary lines drawn with boundary_lw=0")
             if not lims_ok(obs["xlim"], (lo[xd], hi[xd])) or not lims_ok(obs["ylim"], (lo[yd], hi[yd])):
                 return Failure("oracle", f"{where}: axis limits are not the archive bounds of the plotted dimensions")
-            msg = clim_check(obs["clim"], vmin, vmax, objs, where)
+            msg = clim_check(obs["clim"], vmin, vmax, objs, where, widened_ok=obs.get("_cbar", True))
             if msg:
                 return Failure("oracle", msg)
             return None
@@ -997,7 +1001,7 @@ def cmp_scatter(obs, line, where, lines, lims):
         return Failure("corr", f"{where}: offsets impl={_short(obs['off'])} model={_short(moff)}")
     if obs["c"] != parse_rats(d["c"]):
         return Failure("corr", f"{where}: colour array impl={_short(obs['c'])} model={d['c'][:200]}")
-    if not clim_corr(obs["clim"], parse_pair(d["clim"])):
+    if not clim_corr(obs["clim"], parse_pair(d["clim"]), widened_ok=obs.get("_cbar", True)):
         return Failure("corr", f"{where}: clim impl={_short(obs['clim'])} model={d['clim']}")
     if lims and not (lims_ok(obs["xlim"], parse_pair(d["xlim"])) and lims_ok(obs["ylim"], parse_pair(d["ylim"]))):
         return Failure("corr", f"{where}: axis limits impl={_short([obs['xlim'], obs['ylim']])} "
@@ -1066,7 +1070,7 @@ def run_prox(case):
             for x, y in obs["off"]:
                 if not (obs["xlim"][0] <= x <= obs["xlim"][1] and obs["ylim"][0] <= y <= obs["ylim"][1]):
                     return Failure("oracle", f"{where}: a marker lies outside the axis limits")
-            msg = clim_check(obs["clim"], vmin, vmax, objs, where)
+            msg = clim_check(obs["clim"], vmin, vmax, objs, where, widened_ok=obs.get("_cbar", True))
             if msg:
                 return Failure("oracle", msg)
             return None
@@ -1198,7 +1202,7 @@ def run_parallel(case):
             if sorted(map(tuple, readings)) != sorted(tuple(r[1][c] for c in cols) for r in rows):
                 return Failure("oracle", f"{where}: the lines are not one per stored elite")
             if obs["clim"] is not None:
-                msg = clim_check(obs["clim"], vmin, vmax, objs, where)
+                msg = clim_check(obs["clim"], vmin, vmax, objs, where, widened_ok=obs.get("_cbar", True))
                 if msg:
                     return Failure("oracle", msg)
             return None
